@@ -491,7 +491,7 @@ def racing_backups(rep, prog, tier, dl):
     rep.models |= mods
     rep.samples += res.get('samples', [])[:1]
     stats = _stats(st)
-    name = 'two racing backups (<= %d preemptions): nothing that existed changes, every complete version is exactly one of the two sources, a run that reports clean success has its version' % bound
+    name = 'two racing backups (<= %d preemptions): nothing that existed changes, every file of a new version is written by one run (the loser never writes into the winner\'s band), every complete version is exactly one of the two sources, a run that reports clean success has its version' % bound
     for b in res['bad']:
         if b['kind'] == 'panic':
             rep.violation('race2:panic', 'racing backups panic: %s' % b['msg'], '', False)
